@@ -14,13 +14,13 @@ concordium_base_derive/src/lib.rs generates the code:
                                    a struct with ONE field is that field's term (transparent newtype: same bytes)
   enum                          -> `SSum [(0, v0); (1, v1); ...]`: u8 tag = declaration index, then the variant's fields
                                    (no fields: SUnit; one field: its term; several: STuple)
-  field with size_length = n        -> Vec<u8>: `SBytes BE n (256^n - 1)`; Vec<T>: `SVec BE n T`
+  field with size_length = n        -> Vec<T>: `SVec BE n T` (also for T = u8: the derived code pushes element by element)
   field with map_size_length = n    -> BTreeMap<K, V>: `SMap BE n K V`   (strictly increasing keys, checked on decode)
   field with set_size_length = n    -> BTreeSet<K>: `SSet BE n K`
   field with string_size_length = n -> String: `SRefine (POpaque K_UTF8) (SBytes BE n (256^n - 1))`
   field without attribute           -> the term of its type:
        u8..u64, i8..i64 (raw two's complement), bool, (), PhantomData<_>, Box<T>, [u8; N], [T; N], (A, B), (A, B, C),
-       Vec<T> / BTreeMap / BTreeSet (u64 length prefix), Vec<u8> (u64 prefix, `SBytes BE 8 ..`), String (u64 prefix, UTF-8),
+       Vec<T> / BTreeMap / BTreeSet (u64 length prefix), String (u64 prefix, UTF-8),
        Option<T> is NOT serialisable in this crate (no impl) -> error,
        another derived type by name (`g_<Name>`), and the types with hand-written impls listed in MANUAL
        (name -> hand-written term of Chain/ChainSchemas.v, or an opaque leaf `SOpaque n kind` for curve points, scalars, keys).
@@ -74,8 +74,14 @@ MANUAL = {
     "ed25519_dalek::VerifyingKey": "(SOpaque 32 K_ED25519_PK)", "ed25519::VerifyingKey": "(SOpaque 32 K_ED25519_PK)",
     "ecvrf::PublicKey": "(SOpaque 32 K_VRF_PK)", "aggregate_sig::PublicKey<AggregateSigPairing>": "(SOpaque 96 K_BLS_PK)",
     "CredentialRegistrationID": "(SOpaque 48 K_CRED_ID)",
-    "ArCurve": "(SOpaque 48 K_G1)",
+    "Threshold": "(SRefine (PGe 1) SU8)", "ArIdentity": "(SRefine (PGe 1) SU32)",   # id/secret_sharing.rs, id/types.rs: non-zero
+    "ArCurve": "(SOpaque 48 K_G1)", "ed25519::Signature": "(SRaw 64)", "ed25519_dalek::Signature": "(SRaw 64)",
 }
+# first path segments that denote modules of concordium_base itself (a path through them is resolved by its last segment)
+INTERNAL_MODULES = {"id", "hashes", "transactions", "updates", "base", "common", "smart_contracts", "encrypted_transfers",
+                    "protocol_level_tokens", "elgamal", "web3id", "constants", "types", "did", "v1", "anchor", "aggregate_sig",
+                    "ps_sig", "pedersen_commitment", "random_oracle", "curve_arithmetic", "bulletproofs", "sigma_protocols",
+                    "id_proof_types", "secret_sharing", "dodis_yampolskiy_prf", "ecvrf", "eddsa_ed25519"}
 # hash newtypes: HashBytes<Marker> aliases are 32 raw bytes
 HASH_RE = re.compile(r"^(hashes::)?\w*Hash$|^HashBytes<.*>$")
 
@@ -86,6 +92,9 @@ INSTANCES = [("Cipher", {"C": "ArCurve"}), ("EncryptedAmount", {"C": "ArCurve"})
 # translated types that cannot be named from outside the crate (private module / item) or whose values need
 # crate-internal invariants: they keep their generated term and theorem but are not exercised by the harness
 SKIP_GLUE = {}
+# items re-exported from a private module: public path of the declaration
+PATH_OVERRIDE = {"Cipher": "concordium_base::elgamal::Cipher", "Commitment": "concordium_base::pedersen_commitment::Commitment",
+                 "PublicKey__elgamal_public": "concordium_base::elgamal::PublicKey"}
 
 # hand-written terms the generated ones are tied to (Chain/GenTie.v)
 EQUAL = {   # fully derived (Serialize): generated term = hand-written term
@@ -353,8 +362,6 @@ class Translator:
             raise TranslateError("tuple of %d components has no Serial impl" % len(parts))
         m = re.match(r"^Vec<(.*)>$", t)
         if m:
-            if m.group(1).strip() == "u8":
-                return "(SBytes BE 8 %s)" % self.pow256m1(8)
             return "(SVec BE 8 %s)" % self.ty(m.group(1), env, owner)
         m = re.match(r"^(?:std::collections::)?BTreeMap<(.*)>$", t)
         if m:
@@ -370,13 +377,20 @@ class Translator:
             raise TranslateError("Option<_> has no Serial/Deserial impl in this crate (field type %s)" % t)
         m = re.match(r"^([A-Za-z_][\w:]*)\s*(<(.*)>)?$", t)
         if m:
-            base = m.group(1).split("::")[-1]
+            segs = m.group(1).split("::")
+            if len(segs) > 1 and segs[0] not in INTERNAL_MODULES:
+                raise TranslateError("no schema for foreign type `%s`" % t)
+            base = segs[-1]
             args = split_top(m.group(3)) if m.group(3) else []
             if base in MANUAL and not args:
                 return MANUAL[base]
             if base in self.decls:
                 base = self.resolve(base, owner)
                 d = self.decls[base]
+                if not d["deserial"] or not d["serial"]:
+                    # the other half is hand-written (usually a decoder with extra checks): the derived layout alone is
+                    # not the type's format - it needs a hand-written term listed in MANUAL
+                    raise TranslateError("field type %s has a hand-written %s and no term in MANUAL" % (base, "Deserial" if d["serial"] else "Serial"))
                 if d["generics"]:
                     real = [g for g in d["generics"] if not g.startswith("'")]
                     key = (base, tuple(args))
@@ -432,8 +446,6 @@ class Translator:
                 m = re.match(r"^Vec<(.*)>$", t)
                 if not m:
                     raise TranslateError("size_length on non-Vec field type %s" % t)
-                if m.group(1).strip() == "u8":
-                    return "(SBytes BE %d %s)" % (n, self.pow256m1(n))
                 return "(SVec BE %d %s)" % (n, self.ty(m.group(1), env, owner))
             if k == "map_size_length":
                 m = re.match(r"^(?:std::collections::)?BTreeMap<(.*)>$", t)
@@ -575,6 +587,8 @@ def generate(repo="/repo", out=None):
         if real:
             known = {"ArCurve": "concordium_base::id::constants::ArCurve", "AttributeTag": "concordium_base::id::types::AttributeTag", "()": "()"}
             args = "<" + ", ".join(known.get(env.get(g, "()"), env.get(g, "()")) for g in real) + ">"
+        if base in PATH_OVERRIDE:
+            return PATH_OVERRIDE[base] + args
         return "concordium_base::" + mod.replace("/", "::") + "::" + tyname + args
     glue = ["// GENERATED by translators/gen_chain_schemas.py - do not edit.  Schema id => Rust type for the derived types",
             "// that have a generated schema term (coq/Gen/ChainSchemas.v gen_schema_table).",
